@@ -2,8 +2,8 @@ package main
 
 import (
 	"fmt"
-	"os"
 	"go/types"
+	"os"
 	"runtime/debug"
 	"sort"
 	"strings"
@@ -612,7 +612,6 @@ type heapFormal struct {
 
 func innerName(m mapRef, pi int) string { return fmt.Sprintf("%s$in%d", m.name, pi) }
 
-
 // concretizeHeapRead: after assuming (select M ref) == literal for a current heap map M, later
 // reads of that location fold to the literal (used by "cases" on a length stored in the heap).
 func (x *Exec) concretizeHeapRead(st *State, subject, val Value) {
@@ -634,7 +633,6 @@ func (x *Exec) concretizeHeapRead(st *State, subject, val Value) {
 		}
 	}
 }
-
 
 // impliedByPath: every top-level conjunct of t is literally part of the path condition.
 func impliedByPath(st *State, t Term) bool {
